@@ -38,6 +38,9 @@ type Node struct {
 	// first time it executes in the session
 	Pred  int  `json:"pred,omitempty"`
 	Rerun bool `json:"rerun,omitempty"`
+	// a lambda with options (ty lambdaA / lambdaB): the paradigm(s) it implements natively
+	// (0 Invoke, 1 Stream, 2 Collect, 3 Transform, 4 Invoke+Transform, 5 Stream+Collect)
+	Nat int `json:"nat,omitempty"`
 }
 
 type Graph struct {
@@ -201,7 +204,7 @@ func buildGraph1(ctx context.Context, F []Graph, gi int, pre []int, depth int, b
 		name := pathName(p)
 		switch nd.Kind {
 		case "comp":
-			v, err := addComp(ctx, graphSink{g}, key, name, nd.Ty)
+			v, err := addComp(ctx, graphSink{g}, key, name, nd.Ty, nd.Nat)
 			if err != nil {
 				return nil, err
 			}
